@@ -40,6 +40,11 @@ pub fn run_c14(a: &Args) {
             },
         }
     };
+    if let Some(r) = &a.replay { if let Some(rest) = r.strip_prefix("tframe ") {
+        let t: Vec<&str> = rest.split_whitespace().collect(); let compressed = t[0] == "C"; let o: usize = t[1].parse().unwrap(); let g = unhex(t[2]);
+        let b = &g[o..o + 6]; let valid = crate::gen::tracks::TRACK_CODES.iter().any(|k| { let mut w = k.as_bytes().to_vec(); w.resize(6, 0); w == b });
+        let ok = match decode_buf(compressed, &g) { Dec::Got(p, _) => { let same = matches!(encode_p(compressed, &p), Enc::Ok(e) if e == g); println!("track bytes {} (valid wire form: {valid}): the packet decodes and re-encodes {}", hex(b), if same { "identically" } else { "differently" }); valid && same }, Dec::Bad(_) => { println!("track bytes {} (valid wire form: {valid}): decode error", hex(b)); !valid }, d => { println!("{}", cls_string(&d)); false } };
+        if ok { println!("PASS"); std::process::exit(0) } else { println!("FAIL [C14] a packet's track field does not follow the table"); std::process::exit(1) } } }
     if let Some(r) = &a.replay { let b = unhex(r); let mut st = Stats::default(); let o = check([b[0], b[1], b[2], b[3], b[4], b[5]], &mut st, &mut areas); if st.failures_total > 0 { println!("FAIL {}", st.failures[0].1); std::process::exit(1) } else { println!("PASS {o}"); return } }
     let mut rng = Rng::new(a.seed);
     let mut st = Stats::default(); let mut out = Out::new(&a.out);
@@ -63,6 +68,44 @@ pub fn run_c14(a: &Args) {
         let mut v = c.as_bytes().to_vec(); v.resize(6, 0); let b = [v[0], v[1], v[2], v[3], v[4], v[5]];
         st.evaluations += 1;
         match tread(b) { Some(Some(t)) => if t.code() != *c { st.fail(format!("[C14] the wire form of {c} decodes to {}", t.code()), hex(&b)); }, Some(None) => st.fail(format!("[C14] the wire form of configuration {c} (its short code NUL-padded) does not decode"), hex(&b)), None => st.fail("[C14] Track decoding panics".into(), hex(&b)) }
+    }
+    // the same table where the track travels: every Track[6] field of every packet kind (IS_STA, IS_RST, the relay host list
+    // elements): a field holding the NUL-padded short code of a configuration decodes and re-encodes identically; every other
+    // value - zeros, lower case, a known code with bytes after its NUL, a near miss - makes the packet a decode error
+    {
+        use crate::{gen::layouts::KINDS, layout::{gen_frame, width, fixed_width, Atom, Tail, Custom}};
+        let codes = crate::gen::tracks::TRACK_CODES;
+        let pad6 = |c: &str| -> [u8; 6] { let mut v = c.as_bytes().to_vec(); v.resize(6, 0); [v[0], v[1], v[2], v[3], v[4], v[5]] };
+        let is_code = |b: &[u8; 6]| codes.iter().any(|k| pad6(k) == *b);
+        let mut samples: Vec<([u8; 6], bool)> = vec![([0; 6], false)];
+        for (i, c) in codes.iter().enumerate() {
+            let b = pad6(c); samples.push((b, true));
+            if i % 7 == 0 {
+                let mut l = b; l[0] = l[0].to_ascii_lowercase(); samples.push((l, is_code(&l)));
+                let mut g = b; g[5] = b'X'; samples.push((g, is_code(&g)));
+                let mut n = b; n[2] = b'9'; samples.push((n, is_code(&n)));
+            }
+        }
+        let mut nslots = 0u64;
+        for compressed in [true, false] { for k in KINDS.iter() {
+            let Some(f) = crate::wire::stable_frame(&mut rng, k, compressed, Some(2)) else { continue };
+            let mut slots: Vec<(usize, String)> = vec![]; let mut off = 2;
+            for (name, at) in k.fixed { if matches!(at, Atom::Custom(Custom::Track, _)) { slots.push((off, name.to_string())); } off += width(at); }
+            if let Tail::Vec { elt, .. } = k.tail { let ew = fixed_width(elt); let mut eo = 0; for (name, at) in elt { if matches!(at, Atom::Custom(Custom::Track, _)) { for e in 0..2 { slots.push((2 + fixed_width(k.fixed) + e * ew + eo, format!("[{e}].{name}"))); } } eo += width(at); } }
+            for (o, name) in slots { if o + 6 > f.len() { continue; } nslots += 1;
+                for (b, valid) in samples.iter() {
+                    let mut g = f.clone(); g[o..o + 6].copy_from_slice(b); st.evaluations += 1;
+                    let id = format!("tframe {} {o} {}", if compressed { "C" } else { "U" }, hex(&g));
+                    match decode_buf(compressed, &g) {
+                        Dec::Got(p, _) => { if !*valid { st.fail(format!("[C14] {}.{name}: the 6 bytes {} are not the wire form of any configuration but the packet decodes: {}", k.name, hex(b), format!("{:?}", p).chars().take(110).collect::<String>()), id.clone()); }
+                            match encode_p(compressed, &p) { Enc::Ok(e) if e == g => {}, _ => st.fail(format!("[C14] {}.{name}: track {} does not re-encode to the identical bytes", k.name, hex(b)), id.clone()) } },
+                        Dec::Bad(_) => if *valid { st.fail(format!("[C14] {}.{name}: the wire form {} of a configuration makes the packet undecodable", k.name, hex(b)), id.clone()); },
+                        d => st.fail(format!("[C14] {}.{name}: decoder outcome {}", k.name, cls_string(&d)), id.clone()),
+                    }
+                }
+            }
+        } }
+        st.notes.push(format!("track fields inside packets: {nslots} (kinds x fields x modes), {} values each", samples.len()));
     }
     st.add("decodable", ok);
     if ok != 154 { st.fail(format!("[C14] {ok} shaped strings decode, the table has 154 configurations"), "-".into()); }
@@ -205,7 +248,7 @@ pub fn run_c15(a: &Args) {
         let mut fields = 0u64; let mut wide_seen = 0usize;
         for compressed in [true, false] { for k in KINDS.iter() {
             for base_no in 0..4 {
-            let Some((f, _)) = gen_frame(&mut rng, k, compressed, 0, Some(1)) else { continue };
+            let Some(f) = crate::wire::stable_frame(&mut rng, k, compressed, Some(1)) else { continue };
             // (offset, width) of every duration atom: fixed part, then the first tail element
             let mut slots: Vec<(usize, usize, String)> = vec![]; let mut off = 2;
             for (name, at) in k.fixed { if let Atom::Dur { w, .. } = at { slots.push((off, *w, name.to_string())); } off += width(at); }
@@ -220,12 +263,13 @@ pub fn run_c15(a: &Args) {
                     let res = roundtrip("C15", compressed, &g, None, &mut st);
                     if res != format!("ok:{}", hex(&g)) { st.fail(format!("[C15] {}.{name}: wire value {v} re-encodes as {res}", k.name), format!("frame {} {}", crate::net::mode_tag(compressed), hex(&g))); }
                 }
-                // thorough: every 4th value (2^30 of them, offset by the seed) of ONE 32-bit field per run (rotating with the seed; a
-                // decode + re-encode costs ~2 us, so the full 2^32 range of one field would take ~10 min on 16 cores), and every 64th
-                // value (2^26) of each of the others
+                // thorough: every 256th value (2^24 of them, offset by the seed) of ONE 32-bit field per run (rotating with the seed), and
+                // every 4096th value (2^20) of each of the others.  (A decode + re-encode of a frame through the guarded long-lived codec
+                // costs 5-20 us depending on the kind: the full 2^32 range of a single field would take the better part of an hour on 16
+                // cores, so the exhaustive part of C15 is the 16-bit fields and the dictionary.)
                 if a.thorough() && w == 4 && compressed && base_no == 0 {
                     let full = (wide_seen as u64) == a.seed % 16; wide_seen += 1;
-                    let (step, start): (u64, u64) = if full { (4, a.seed % 4) } else { (64, a.seed % 64) };
+                    let (step, start): (u64, u64) = if full { (256, a.seed % 256) } else { (4096, a.seed % 4096) };
                     let base = f.clone(); let kname = k.name;
                     let hs: Vec<_> = (0..16u64).map(|t| { let base = base.clone(); std::thread::spawn(move || {
                         let mut bad: Vec<u32> = vec![]; let lo = t << 28; let hi = (t + 1) << 28; let mut g = base.clone();
@@ -235,8 +279,8 @@ pub fn run_c15(a: &Args) {
                             if !ok && bad.len() < 4 { bad.push(v as u32); } v += step; }
                         bad }) }).collect();
                     for h in hs { for v in h.join().unwrap_or_default() { let mut g = base.clone(); g[o..o + 4].copy_from_slice(&v.to_le_bytes()); st.fail(format!("[C15] {kname}.{name}: wire value {v} does not round-trip"), format!("frame C {}", hex(&g))); } }
-                    if full { st.evaluations += 1u64 << 30; st.bump("32-bit time field swept at every 4th value (2^30 values)"); st.notes.push(format!("every 4th of the 2^32 wire values of {kname}.{name} (offset {})", a.seed % 4)); }
-                    else { st.evaluations += 1u64 << 26; st.bump("32-bit time fields swept at every 64th value (2^26 values each)"); }
+                    if full { st.evaluations += 1u64 << 24; st.bump("32-bit time field swept at every 256th value (2^24 values)"); st.notes.push(format!("every 256th of the 2^32 wire values of {kname}.{name} (offset {})", a.seed % 256)); }
+                    else { st.evaluations += 1u64 << 20; st.bump("32-bit time fields swept at every 4096th value (2^20 values each)"); }
                 }
             }
         } }
